@@ -7,6 +7,7 @@ import (
 	"sort"
 	"strings"
 	"sync"
+	"sync/atomic"
 	"testing"
 	"time"
 
@@ -395,7 +396,7 @@ func vfRunHistory(h *vfHistory, res *vfCellResult) {
 	w.settle(time.Second)
 	log := w.snapshot()
 	for _, p := range probes {
-		if zombies[p.path] {
+		if w.wasZombie(p.path, zombies) {
 			continue
 		}
 		proc, dl := 0, 0
@@ -453,7 +454,7 @@ func vfRunHistory(h *vfHistory, res *vfCellResult) {
 		if parent == "" {
 			continue
 		}
-		if _, ok := acts[parent]; !ok || zombies[parent] {
+		if pc, ok := acts[parent]; !ok || zombies[parent] || atomic.LoadInt32(&pc.state) != running {
 			continue
 		}
 		nm := vfLast(p)
@@ -571,9 +572,9 @@ const vfHistRule = "quiescence (synctest.Wait) after each step; then paused/stat
 func TestVerif_histories(t *testing.T) {
 	R := verifrt.NewReport("histories", "PRNG histories: tree of 2-7 recording actors (random strategies, 3-decision lists, providers, failing restart hooks, Loop jobs, subscriptions, Become points), 4-17 steps from {tell x 12 ops x 4 ways of obtaining the ref, kill poison/immediate, spawn incl. name reuse, watch, unwatch, tell to never-existing path, race of 2-4 of these from separate goroutines at one virtual instant}; "+vfHistRule)
 	defer R.Flush()
-	n := verifrt.EnvInt("VERIF_N", 3000)
+	n := verifrt.EnvInt("VERIF_N", 20000)
 	if verifrt.Thorough() {
-		n = 100000
+		n = 600000
 	}
 	vfRunHistories(t, R, "histories", "", n)
 }
@@ -581,9 +582,9 @@ func TestVerif_histories(t *testing.T) {
 func TestVerif_killtree(t *testing.T) {
 	R := verifrt.NewReport("killtree", "PRNG kill-centred histories: trees of 4-20 actors (depth <= 4, fan-out <= 3), every actor holding a subscription and a Loop job; steps dominated by kill (poison/immediate, any node, 4 ways of obtaining the ref, repeated), watch/unwatch, spawn incl. name reuse, and aimed races at one virtual instant: 1-3 killers on one victim || spawn inside the victim || watch of the victim; "+vfHistRule)
 	defer R.Flush()
-	n := verifrt.EnvInt("VERIF_N", 2000)
+	n := verifrt.EnvInt("VERIF_N", 10000)
 	if verifrt.Thorough() {
-		n = 60000
+		n = 300000
 	}
 	vfRunHistories(t, R, "killtree", "kill", n)
 }
@@ -591,9 +592,9 @@ func TestVerif_killtree(t *testing.T) {
 func TestVerif_lifecycle(t *testing.T) {
 	R := verifrt.NewReport("lifecycle", "PRNG restart-centred histories: providers (60%), Become points (40%), restart decisions dominate, repeated failures aimed at a favourite actor (panic and Failed), OnLaunch failing again in the 2nd incarnation, children spawned whose Prelaunch refuses the first launch (ActorOf must fail, instance must stay silent); "+vfHistRule)
 	defer R.Flush()
-	n := verifrt.EnvInt("VERIF_N", 3000)
+	n := verifrt.EnvInt("VERIF_N", 20000)
 	if verifrt.Thorough() {
-		n = 100000
+		n = 600000
 	}
 	vfRunHistories(t, R, "lifecycle", "life", n)
 }
